@@ -1662,6 +1662,20 @@ func (*ParserCustomData).CommitCustomDice
   requires d != nil && 0 <= d.codeIndex && d.codeIndex <= len(d.code) && len(d.code) >= 1
   ensures [C17] d.pendingCustomDice == nil
 
+// Length, GetSlice: panic-freedom of the slicing read operator (C01) — the bounds handed to the Go slice
+// expressions lie inside the sliced value for every start, end and receiver.
+func (*VMValue).Length
+  props C01 C02
+  requires ctx != nil
+  ensures result >= 0
+  ensures [C02] v.TypeId == VMTypeArray ==> result == IntType(len(v.Value.(*ArrayData).List)) && ctx.Error == old(ctx.Error)
+  ensures [C02] v.TypeId == VMTypeString ==> result == IntType(len([]rune(v.Value.(string)))) && ctx.Error == old(ctx.Error)
+  ensures v.TypeId != VMTypeArray && v.TypeId != VMTypeString && v.TypeId != VMTypeDict ==> ctx.Error != nil
+
+func (*VMValue).GetSlice
+  props C01
+  requires ctx != nil
+
 func (*VMValue).GetSliceEx
   props C01
   noverify
